@@ -264,7 +264,8 @@ DevExplains(fid, e) ==
             \/ ValGT(e.h["hash_bytes"], 8) /\ Has(e, "hash_bytes2") /\ ValGT(e.h["hash_bytes2"], 8)
     [] fid = "F02c" ->   \* V1 MIME detection slices the lossily decoded text at byte 512
          /\ e.fmt = "mime" /\ Symptom(e) = "panic" /\ e.len > 512
-         /\ e.mc = "end byte index N is not a char boundary; it is inside "
+         /\ e.mc \in {"end byte index N is not a char boundary; it is inside ",
+                     "byte index N is not a char boundary; it is inside "}
     [] fid = "F02d" ->   \* local .idx: entry size computed in u8
          /\ e.fmt = "local_idx" /\ Symptom(e) = "panic" /\ e.mc = "attempt to add with overflow"
          /\ e.loc = "cascette-client-storage/src/index/mod.rs"
